@@ -19,18 +19,24 @@ func init() { props["C18"] = runC18 }
 func c18Writer(r *vhlib.Run, wc wcodec, seq []wOp) {
 	replay := map[string]interface{}{"type": wc.Name + ".Writer", "ops": wOpsStrings(seq)}
 	r.Eval("writer:"+wc.Name, true, []byte(wc.Name+strings.Join(wOpsStrings(seq), " ")))
-	var sink bytes.Buffer
+	sink := new(bytes.Buffer)
 	var accepted []byte
 	closedOK := false // a Close has returned nil since the last Reset
 	sinkAtClose := 0
 	var w wrt
+	// sinks given up by Reset: nothing may reach them any more (a stream that was closed stays as it is)
+	type retired struct {
+		b *bytes.Buffer
+		n int
+	}
+	var old []retired
 	func() {
 		defer func() {
 			if p := recover(); p != nil {
 				r.Violate("panic", fmt.Sprintf("%s.Writer: %v", wc.Name, p), replay)
 			}
 		}()
-		w = wc.New(&sink)
+		w = wc.New(sink)
 		for i, o := range seq {
 			before := sink.Len()
 			switch o.Kind {
@@ -65,10 +71,18 @@ func c18Writer(r *vhlib.Run, wc wcodec, seq []wOp) {
 					}
 				}
 			case 'r':
-				sink.Reset()
+				old = append(old, retired{sink, sink.Len()})
+				sink = new(bytes.Buffer)
+				before = 0
 				accepted = nil
 				closedOK = false
-				w.Reset(&sink)
+				w.Reset(sink)
+			}
+			for _, rt := range old {
+				if rt.b.Len() != rt.n {
+					r.Violate("bytes-after-close", fmt.Sprintf("%s op %d (%s): a sink given up by an earlier Reset grew from %d to %d bytes", wc.Name, i, o, rt.n, rt.b.Len()), replay)
+					return
+				}
 			}
 			if closedOK && o.Kind != 'r' && o.Kind != 'c' && sink.Len() != before {
 				r.Violate("bytes-after-close", fmt.Sprintf("%s op %d (%s) emitted %d bytes after a successful Close", wc.Name, i, o, sink.Len()-before), replay)
